@@ -5,6 +5,7 @@ from hypothesis import strategies as st
 from hypothesis.stateful import RuleBasedStateMachine
 from hypothesis.stateful import initialize
 from hypothesis.stateful import invariant
+from hypothesis.stateful import precondition
 from hypothesis.stateful import rule
 
 from verifkit import compile as C
@@ -116,6 +117,61 @@ class HistoryRunner:
         return len(self.ops) >= 2 and len(variants) >= 2 and bool(self.facts & {'losing-candidate', 're-iterated'})
 
 
+@st.composite
+def scope_switching_programs(draw):
+    """directed history shape: ONE sub-pipeline (a recurrent subgraph, or a plain shared chain) is reachable from
+    different KINDS of scope - a plain consumer, a one-of candidate, a nested candidate - which sit in different cases
+    of a switch, so that consecutive runs of the chart reach it from different scopes (different label per run) while
+    a node of it fails on its first or on a later invocation. Whatever the engine derives for such a sub-pipeline in
+    one run must not leak into the next."""
+    def N(nid, params=(), mode='gated', **kw):
+        d = {'id': nid, 'params': [list(p) for p in params], 'mode': mode}
+        d.update(kw)
+        return d
+    ext = st.sampled_from(['gated', 'gated', 'coro', 'thread'])
+    nodes = [N('n0', mode='coro')]
+
+    def add(params, **kw):
+        nid = f'n{len(nodes)}'
+        nodes.append(N(nid, params, mode=draw(ext), **kw))
+        return nid
+
+    recurrent = draw(st.integers(0, 3)) != 0
+    start = add([('k0', ['in', 'n0'])], additional_data=recurrent)
+    mid = add([('k0', ['in', start])]) if draw(st.booleans()) else start
+    dest = add([('k0', ['in', mid])], rec_dest=recurrent, use_default=recurrent and draw(st.booleans()))
+    maxit = draw(st.integers(1, 2))
+    mark = ['rec', start, dest, maxit] if recurrent else ['in', dest]
+    plain = add([('k0', list(mark))])
+    cand = add([('k0', list(mark))])
+    fallback = add([('k0', ['in', 'n0'])])
+    via_oneof = add([('k0', ['oneof', [cand, fallback]])])
+    cases = [['L0', plain], ['L1', via_oneof]]
+    if draw(st.booleans()):
+        cand2 = add([('k0', list(mark))])
+        inner = add([('k0', ['oneof', [cand2]])])
+        fb2 = add([('k0', ['in', 'n0'])])
+        cases.append(['L2', add([('k0', ['oneof', [inner, fb2]])])])
+    dec = add([('k0', ['in', 'n0'])])
+    out = add([('k0', ['sw', 'sw_scope', dec, cases])])
+    prog = {'nodes': nodes, 'output': out}
+    prog['_directed'] = {'dec': dec, 'labels': [c[0] for c in cases], 'path': sorted({start, mid, dest}),
+                         'dest': dest, 'recurrent': recurrent, 'maxit': maxit}
+    return prog
+
+
+@st.composite
+def scope_switching_variants(draw, d):
+    var = {'x': draw(st.integers(0, 2)), 'nodes': {d['dec']: {'label': draw(st.sampled_from(d['labels']))}}}
+    if d['recurrent']:
+        var['nodes'][d['dest']] = {'rec_n': draw(st.integers(0, d['maxit'] + 1))}
+    if draw(st.integers(0, 3)) != 0:
+        who = draw(st.sampled_from(d['path']))
+        k = draw(st.integers(0, 2))
+        var['nodes'].setdefault(who, {})['outcomes'] = ['ok'] * k + ['ErrA']
+    return var
+
+
 class C07(Check):
     id = 'C07'
     rule = ('stateful (Hypothesis RuleBasedStateMachine): initialize draws a program and builds ONE chart; rules run '
@@ -151,8 +207,10 @@ class C07(Check):
                 super().__init__()
                 self.hr = None
 
-            @initialize(prog=G.programs(feats=BASE_FEATS, min_nodes=2, max_nodes=hi, clean=True, p_feat=45))
+            @initialize(prog=st.one_of(*([G.programs(feats=BASE_FEATS, min_nodes=2, max_nodes=hi, clean=True,
+                                                     p_feat=45)] * 7), scope_switching_programs()))
             def setup(self, prog):
+                self.directed = prog.pop('_directed', None)
                 self.hr = HistoryRunner(prog)
 
             def _do(self, op):
@@ -163,6 +221,13 @@ class C07(Check):
             @rule(data=st.data())
             def run(self, data):
                 var = data.draw(G.variants(self.hr.program, feats=BASE_FEATS))
+                sched = data.draw(G.schedules(self.hr.program))
+                self._do({'op': 'run', 'variant': var, 'sched': sched})
+
+            @precondition(lambda self: getattr(self, 'directed', None) is not None)
+            @rule(data=st.data())
+            def run_directed(self, data):
+                var = data.draw(scope_switching_variants(self.directed))
                 sched = data.draw(G.schedules(self.hr.program))
                 self._do({'op': 'run', 'variant': var, 'sched': sched})
 
